@@ -533,13 +533,10 @@ func ruleRecoveryReplay(c *RC) *RuleResult {
 			r.Sites++
 			reach := false
 			for _, s := range c.A.FnSites[h] {
-				if s.Kind != "call" || s.Target != c.API["OnReceive"] {
+				if s.Kind != "call" || s.Callee != "if:RecoveryMessage."+g {
 					continue
 				}
 				for _, sn := range s.Snaps {
-					if len(sn.Args) != 1 || !strings.Contains(sn.Args[0].S, "l:if:RecoveryMessage."+g+":") {
-						continue
-					}
 					f := sn.F.clone()
 					cons := true
 					for _, l := range sc {
